@@ -742,6 +742,10 @@ class RequestHandler:
                 "(should be lowercase)",
                 DeprecationWarning,
             )
+        # Fail now, while the handler can still react, rather than in
+        # flush() after the response has been started, if the cookie
+        # cannot be sent as a header (e.g. a value outside latin-1).
+        self._convert_header_value(morsel.OutputString())
         if not hasattr(self, "_new_cookie"):
             self._new_cookie: http.cookies.SimpleCookie = http.cookies.SimpleCookie()
         if name in self._new_cookie:
